@@ -94,6 +94,18 @@ CLAIMED = {
          "<= 4 nodes exhaustively. Found and fixed: exponential re-traversal of nested PaintGlyph (058f9ae).",
     technique="TLA+ traversal model checked by TLC; exhaustive graph enumeration replayed on ColorGlyph::paint; trace validation of callbacks and visit counts",
     design="4/C13"),
+ "C08": dict(
+    category="model_checking",
+    text="Cmap.tla is the reader semantics of cmap formats 4/12/14 written from the OpenType specification (segment "
+         "search, idRangeOffset addressing, modulo-65536 deltas, UVS default/non-default lookup); TLC checks it against "
+         "a reference encoder on every mapping of a boundary family and enumerates that family; every mapping is "
+         "compiled by Cmap::from_mappings, the emitted arrays are read back and judged by the specification at every "
+         "segment edge +-1, and the repository's own readers and iterators are judged against the input mapping "
+         "(including all 65536 BMP code points). Two defects were found and fixed (c1d9a2a, 7f63332).",
+    note="Trusted: TLC, read-fonts' raw field getters used to extract the arrays. Mappings with <= 3 pairs exhaustively, "
+         "runs and random tables beyond; the segment-merging heuristic itself is not specified.",
+    technique="TLA+ format semantics checked by TLC; TLC-enumerated mappings replayed on the builder; trace validation of emitted tables and reader answers",
+    design="4/C08"),
 }
 
 NOT_APPLICABLE = {
